@@ -69,10 +69,19 @@ TABLE: list[ClassDef] = [
             FieldDef("ft", "tuple[int, str]", "ft", '(0, "")'),
             FieldDef("fs", "frozenset[int]", "fsint", "frozenset()"),
             FieldDef("fss", "frozenset[str]", "fsstr", "frozenset()"),
+            FieldDef("ffs", "frozenset[frozenset[int]]", "fsfs", "frozenset()"),
+            FieldDef("sk", "SKind", "senum", "SKind.ADD"),
             FieldDef("nc", "str", "str", '""', compare=False),
             FieldDef("ni", "int", "int", "7", init=False),
             FieldDef("nn", "int", "int", "1", init=False, compare=False),
         ],
+    ),
+    # a class that validates in its own __post_init__ AFTER the base class has registered the node
+    ClassDef(
+        "Checked", "Base",
+        [FieldDef("v", "int", "int", "0"), FieldDef("note", "str", "str", '""', compare=False)],
+        extra_body=("    def __post_init__(self) -> None:\n        super().__post_init__()\n"
+                    "        if self.note == \"bad\":\n            raise ValueError(\"bad note\")\n"),
     ),
     ClassDef(
         "SerVals", "Base",
@@ -264,6 +273,13 @@ class Color(enum.Enum):
     RED = "red"
     GREEN = "green"
     BLUE = "blue"
+
+
+class SKind(str, enum.Enum):
+    """an enum with a str mixin: str(member) differs from the member's character data"""
+
+    ADD = "plus"
+    SUB = "minus"
 
 '''
 
